@@ -3,7 +3,7 @@
    the code before the repair is kept as [..._before_fix_refuted] witnesses.  The model is tied to
    trajectories/store.py by running [run_case] inside Coq against real NetCDF stores (harness/c03.py). *)
 From Coq Require Import ZArith List String Bool Arith.
-From AV Require Import model.C03_Model proofs.C03_Proofs proofs.C03_Store.
+From AV Require Import model.C03_Model proofs.C03_Proofs proofs.C03_Store proofs.C03_Files.
 Import ListNotations.
 
 (* One field, every one of the six dimension shapes and every scalar kind: whatever fits the field
@@ -90,6 +90,51 @@ Theorem C03_species_dimension_complete :
   In fs sets -> nth_error (nth fs t []) j = Some v -> In sp (keys_of v) -> In sp (species_union sets t).
 Proof. exact species_union_in. Qed.
 Print Assumptions C03_species_dimension_complete.
+
+(* The files of a store taken separately — each with its own species dimension and its own variables,
+   a field set living in exactly one of them ([run_case], the model the correspondence runs) — behave,
+   for EVERY input and for the code before and after the repair alike, as the merged view the theorems
+   above are about. *)
+Theorem C03_files_read_as_merged :
+  forall fixed sc ly worder rorder1 morder rorder ts,
+  layout_ok sc ly ->
+  run_case fixed sc ly worder rorder1 morder rorder ts = run_case_merged fixed sc ly worder rorder1 morder rorder ts.
+Proof. exact run_case_files_eq_merged. Qed.
+Print Assumptions C03_files_read_as_merged.
+
+(* Layout independence on separate files.  (i) Base + associated file written by one CREATE = single
+   file, for every schema, split, trajectory list and order, outcome for outcome (errors included). *)
+Theorem C03_assoc_reads_as_single_file :
+  forall fixed sc a worder rorder1 morder rorder ts,
+  layout_ok sc (Assoc a) ->
+  run_case fixed sc (Assoc a) worder rorder1 morder rorder ts = run_case fixed sc Single worder rorder1 morder rorder ts.
+Proof. exact assoc_reads_as_single. Qed.
+Print Assumptions C03_assoc_reads_as_single_file.
+
+(* (ii) A store whose field sets [a] are produced afterwards by create_associated — a second file whose
+   species dimension (that of the mapped results) in general differs from the base file's — reads back,
+   trajectory for trajectory, exactly what the store holding everything in one file reads back; every
+   add succeeds in both.  (A reader that used one species list for all files of a store is excluded:
+   each file is decoded with its own.) *)
+Theorem C03_mapped_reads_as_single_file :
+  forall sc a t0 rest o1 o2 wS rorder,
+  let ts := t0 :: rest in
+  NoDup a -> incl a (all_sets sc) ->
+  NoDup o1 -> NoDup o2 -> incl o1 (minus (all_sets sc) a) -> incl o2 a ->
+  NoDup wS -> incl wS (all_sets sc) -> incl rorder (o1 ++ o2) -> incl rorder wS ->
+  no_string_species_fields sc rorder ->
+  (forall t, In t ts -> traj_keys_ascending t /\
+     exists n, (forall fs, In fs (o1 ++ o2) -> set_fits n sc (mapped_species sc a t0) t fs) /\
+               (forall fs, In fs wS -> set_fits n sc (single_species sc t0) t fs)) ->
+  exists cS cM1 cM,
+    add_all_c true sc wS 0 ts (create_files sc Single t0) = (cS, None) /\
+    add_all_c true sc o1 0 ts (create_files sc (Mapped a) t0) = (cM1, None) /\
+    add_all_c true sc o2 0 ts (add_mapped_file_c a t0 cM1) = (cM, None) /\
+    forall i t, nth_error ts i = Some t -> has_array sc rorder t ->
+      load_traj_c true sc rorder i cM = load_traj_c true sc rorder i cS /\
+      load_traj_c true sc rorder i cS = inl (map snd (expect sc (single_species sc t0) rorder t)).
+Proof. exact mapped_reads_as_single. Qed.
+Print Assumptions C03_mapped_reads_as_single_file.
 
 (* with ascending keys inside an ascending species dimension the normal form is the value itself *)
 Theorem C03_normal_form_is_identity :
